@@ -17,11 +17,15 @@ def menu(w):
               ("anon", [("p", sig("s")), ("n", sig("s2"))]),
               ("anon", [("p", ("bref", "d0", ["n"])), ("n", ("bref", "d0", ["p"]))]),
               ("anon", [("p", idx(sig("v"), 1)), ("n", idx(sig("t"), 2))]),
-              idx(sig("v"), 0), cat(sig("s2"))]
+              idx(sig("v"), 0), cat(sig("s2")),
+              # members written in another order than the bundle declares them
+              ("anon", [("n", sig("s2")), ("p", sig("s"))]),
+              ("dict", [("n", idx(sig("t"), 3)), ("p", ("bref", "d1", ["n"]))])]
     else:
         m += [("anon", [("p", sig("v")), ("n", rng(sig("t"), 1, 3))]),
               ("anon", [("p", cat(sig("s"), sig("s2"))), ("n", sig("v"))]),
-              rng(sig("t"), 2, 4), cat(sig("s"), idx(sig("v"), 1))]
+              rng(sig("t"), 2, 4), cat(sig("s"), idx(sig("v"), 1)),
+              ("anon", [("n", rng(sig("t"), 0, 2)), ("p", sig("v"))])]
     return m
 
 
